@@ -33,6 +33,16 @@ CLAIMED = {
              'graphs up to 12 cells with random wildcard paths are recorded from glom and validated by TLC.',
         design='4/C14',
         technique='TLA+ spec (GlomT BFS law) + TLC enumeration of graphs x paths, replay into glom, TLC validation of recorded executions'),
+    'C18': dict(
+        text='GlomRepr states the sequence semantics of a Path (Python tuple semantics for len / index / slice / concat / '
+             'startswith, IndexError out of range) and TLC checks the sequence laws on the model; TLC enumerates every index and '
+             'in-range slice triple over paths of up to MaxN steps and every T / Path expression of up to MaxOps operations over '
+             'the literal alphabet rooted at T, S, A, with the outcome GlomT predicts on four probe targets; the harness realises '
+             'each case with real objects: sequence answers must agree, eval(repr(x)) and pickle must record the same operations, '
+             'have the same repr and evaluate identically (and as predicted); glom(t, Path(p, q)) is glom(glom(t, p), q); random '
+             'longer paths and slices recorded from real Path objects are validated by TLC.',
+        design='4/C18',
+        technique='TLA+ sequence/evaluation laws + TLC enumeration, replay on real T/Path objects, TLC validation of recorded slices'),
 }
 
 PENDING_REASON = 'check not built yet (planned: see DESIGN.md section 4); not claimed until both binding directions exist'
